@@ -57,4 +57,21 @@ def headerOk (bs : Bytes) (magic : Nat) (maxVersion : Nat) : Bool :=
   | some (h, _) => h.magic.val == magic && h.version.val ≤ maxVersion && h.minVersion.val ≤ maxVersion
   | none => false
 
+/-- `NV_HEADER_Unmarshal` as coded: version (2 bytes), magic (4 bytes), and — from version 2 on — min_version (2 bytes).
+    Refused: too short, another magic, a min_version above what this implementation writes. A HIGHER version with an acceptable
+    min_version is not refused (newer writers append blocks that older readers skip). `none` = the header is accepted. -/
+inductive HeaderRefusal where | insufficient | badTag | badVersion
+  deriving Repr, DecidableEq
+
+def headerRefusal (bs : Bytes) (magic cur : Nat) : Option HeaderRefusal :=
+  match rdBE bs 0 2, rdBE bs 2 4 with
+  | some v, some m =>
+    if m ≠ magic then some .badTag
+    else if v ≥ 2 then
+      (match rdBE bs 6 2 with
+       | some mv => if mv > cur then some .badVersion else none
+       | none => some .insufficient)
+    else none
+  | _, _ => some .insufficient
+
 end TpmVerif.Model.Blob
